@@ -40,6 +40,7 @@ type litCtx struct {
 	model map[string]string
 	pkg   *types.Package
 	notes []string
+	imports map[string]string
 }
 
 func (l *litCtx) get(term string) (string, bool) {
@@ -68,6 +69,10 @@ func (l *litCtx) typeName(t types.Type) string {
 		if p == l.pkg {
 			return ""
 		}
+		if l.imports == nil {
+			l.imports = map[string]string{}
+		}
+		l.imports[p.Path()] = p.Name()
 		return p.Name()
 	})
 }
@@ -136,10 +141,10 @@ func (l *litCtx) lit(term string, t types.Type, depth int) (string, bool) {
 		}
 		eb, ok := u.Elem().Underlying().(*types.Basic)
 		if !ok || !(isInt(eb) || isBool(eb)) {
-			if n.Sign() == 0 {
-				return fmt.Sprintf("make(%s, 0, %d)", l.typeName(t), extra), true
+			if n.Sign() > 0 {
+				l.notes = append(l.notes, "elements of "+l.typeName(t)+" are zero values (not taken from the model)")
 			}
-			return "", false
+			return fmt.Sprintf("make(%s, %d, %d)", l.typeName(t), n.Int64(), n.Int64()+extra), true
 		}
 		mem := fmt.Sprintf("M_%s_0", c.arrKey(u.Elem()))
 		var es []string
@@ -264,7 +269,13 @@ func ReplayTest(fn *ssa.Function, o *Obligation, model map[string]string) (src s
 		prints = append(prints, fmt.Sprintf("\tfmt.Printf(\"REPLAY-RESULT %d: %%s\\n\", verifPP(r%d))", i, i))
 	}
 	var sb strings.Builder
-	sb.WriteString(fmt.Sprintf("package %s\n\nimport (\n\t\"fmt\"\n\t\"reflect\"\n\t\"testing\"\n)\n\n", fn.Pkg.Pkg.Name()))
+	extra := ""
+	for path, name := range l.imports {
+		if path != "fmt" && path != "reflect" && path != "testing" {
+			extra += fmt.Sprintf("\t%s %q\n", name, path)
+		}
+	}
+	sb.WriteString(fmt.Sprintf("package %s\n\nimport (\n\t\"fmt\"\n\t\"reflect\"\n\t\"testing\"\n%s)\n\n", fn.Pkg.Pkg.Name(), extra))
 	sb.WriteString("func verifPP(x any) string {\n\tv := reflect.ValueOf(x)\n\tif v.IsValid() && v.Kind() == reflect.Ptr && !v.IsNil() {\n\t\treturn fmt.Sprintf(\"&%#v\", v.Elem().Interface())\n\t}\n\treturn fmt.Sprintf(\"%#v\", x)\n}\n\n")
 	sb.WriteString("// Generated by govc from a solver counterexample for obligation\n//   " + o.Name + "\n")
 	sb.WriteString("func TestVerifReplay(t *testing.T) {\n")
